@@ -103,6 +103,13 @@ def run_one(cfg, chooser, max_steps=6000):
     tasks = [Task(t) for t in range(cfg['tasks'])]
     pipeline = Pipeline(source, tasks, item_queue=ObservedQueue())
     pipeline.concurrency = cfg['conc']
+    # hooked state: the moment process() leaves its worker loop and begins to wait for the items in flight
+    _orig_shutdown = pipeline._shutdown_processing
+
+    def _observed_shutdown(*a, **kw):
+        log.append(('shutdown_begin', None, loop.steps))
+        return _orig_shutdown(*a, **kw)
+    pipeline._shutdown_processing = _observed_shutdown
 
     def do_stop():
         if pipeline._state.value != 'running':
@@ -137,7 +144,10 @@ def run_one(cfg, chooser, max_steps=6000):
             loop.add_external('stop', do_stop)
         if changes:
             loop.add_external('conc=%d#0' % changes[0], make_change(0))
-        result = await pipeline.process()
+        try:
+            result = await pipeline.process()
+        finally:
+            log.append(('process_left', None, loop.steps))
         for _ in range(cfg.get('more_runs') or 0):
             # the same Pipeline object is used again after it has finished: the source has new items by then
             log.append(('process_again', None, loop.steps))
@@ -244,6 +254,21 @@ def judge(obs, part, replay):
                            {'cfg': cfg, 'main_exception': obs['main_exception']}, replay)
         else:
             part.count('exception_surfaced')
+            # "after a stop request it returns as soon as the items in flight finish": once process() has begun to wait for
+            # the items in flight (stop request taken, worker loop left), a failure of one of them does not entitle it to
+            # return while another one is still being processed
+            names = [e[0] for e in log]
+            if 'shutdown_begin' in names and 'task_raise' in names and 'process_left' in names and \
+                    names.index('shutdown_begin') < names.index('task_raise'):
+                left = names.index('process_left')
+                started0 = set(e[2] for e in log[:left] if e[0] == 'start' and e[1] == 0)
+                finished = set(e[2] for e in log[:left] if (e[0] == 'end' and e[1] == n_tasks - 1) or e[0] == 'task_raise')
+                orphans = sorted(started0 - finished)
+                if orphans:
+                    part.violation('process-returned-with-item-in-flight/failure-while-waiting-for-stop',
+                                   {'cfg': cfg, 'items_in_flight': orphans, 'log_tail': log[-14:]}, replay)
+                else:
+                    part.count('failure_during_stop_wait_all_in_flight_finished')
         return
     if obs['main_exception']:
         part.violation('unexpected-exception-from-process/' + cls,
@@ -368,6 +393,10 @@ DIRECTED = [
     {'items': 2, 'tasks': 1, 'conc': 2, 'task_raises': [0, 0], 'changes': [1, 0]},
     {'items': 3, 'tasks': 2, 'conc': 2, 'stop': True, 'task_raises': [1, 0]},
     {'items': 2, 'tasks': 1, 'conc': 2, 'source_raises_at': 1, 'source_raise_kind': 'stopiteration'},
+    # stop with an idle worker (which leaves at once) and two items in flight, one of which fails
+    {'items': 2, 'tasks': 1, 'conc': 3, 'stop': True, 'task_raises': [0, 0]},
+    {'items': 2, 'tasks': 2, 'conc': 3, 'stop': True, 'task_raises': [1, 1], 'source_delay': True},
+    {'items': 3, 'tasks': 1, 'conc': 4, 'stop': True, 'task_raises': [0, 1]},
     {'items': 1, 'tasks': 1, 'conc': 1, 'source_raises_at': 0, 'source_raise_kind': 'chained'},
 ]
 
